@@ -1200,6 +1200,33 @@ def corpus():
         Union('EvoUn', [F(1, 'i', 'i32'), F(2, 's', 'string'), F(3, 'sub', R('Sub')), F(4, 'l', L('string'))]),
         Struct('EvoHolder', [F(1, 'u', R('EvoUn'), 'optional'), F(2, 'lu', L(R('EvoUn'))), F(3, 'e', R('Evo'), 'optional'), F(4, 'tail', 'string')]),
     ], includes=['inc'], style=0))
+
+    # ---- argk: ARGUMENT types of a service, compiled with keep_unknown_fields in the keep build (finding F-13a: the sync decoder
+    # of such a struct counts its declared fields down and takes `remaining - 2` bytes as unknown fields once all were seen).
+    # The shapes decide the state of the reader when it gets there (unchecked codec: how much was read since the last
+    # re-windowing): last declared field a scalar / a nested struct ending in a string / a string / a map ending in a bool;
+    # declared fields with CONSTANT defaults, required and optional, before and after fields without one; an argument type
+    # nested in a plain struct and as a return type
+    docs.append(Doc('argk', [
+        Struct('Inner', [F(1, 's', 'string', 'required')]),
+        Struct('LastScalar', [F(1, 'note', 'string', 'optional'), F(2, 'id', 'i32', 'required')]),
+        Struct('LastNested', [F(1, 'id', 'i32', 'required'), F(2, 'inner', R('Inner'), 'required')]),
+        Struct('LastString', [F(1, 'id', 'i64', 'required'), F(2, 'name', 'string', 'required')]),
+        Struct('LastMap', [F(1, 'id', 'i32', 'required'), F(2, 'm', M('string', 'bool'), 'required')]),
+        Struct('Dflt', [F(1, 'id', 'i32', 'required'), F(2, 'note', 'string', 'optional'), F(3, 'limit', 'i32', 'required', I(10)),
+                        F(4, 'flag', 'bool', 'optional', I(1)), F(5, 'tag', 'string', 'optional', Str('t'))]),
+        Struct('DfltFirst', [F(1, 'limit', 'i32', 'required', I(10)), F(2, 'id', 'i32', 'required')]),
+        Struct('DfltOnly', [F(1, 'a', 'i32', 'optional', I(1)), F(2, 'b', 'double', 'required', D('2.5'))]),
+        Struct('Wrap', [F(1, 'd', R('Dflt'), 'required'), F(2, 'after', 'i32', 'required')]),
+        Service('ArgSvc', [
+            Method('scalar', 'void', [F(1, 'r', R('LastScalar'))]),
+            Method('nested', R('LastNested'), [F(1, 'r', R('LastNested'))]),
+            Method('text', 'void', [F(1, 'r', R('LastString')), F(2, 'n', 'i32')]),
+            Method('lookup', 'void', [F(1, 'r', R('LastMap'))]),
+            Method('dflt', R('DfltOnly'), [F(1, 'r', R('Dflt'))]),
+            Method('dflt2', 'void', [F(1, 'a', R('DfltFirst')), F(2, 'b', R('Dflt'))]),
+        ]),
+    ], style=1))
     present = repairs_present()
     docs += [d for n, d in repair_docs() if n in present]
     return docs
